@@ -1552,13 +1552,14 @@ class SymEx:
                     (self.inline_filter and not self.inline_filter(f)):
                 vals = [self.snap(st, self.eval(st, a)) for a in e.k]
                 r = ('hcall', base) + tuple(vals)
-                self.effect(st, 'hcall', name=base, args=vals, where=e.where(), node=e.cid,
-                            targs=tuple(f.targs) if f else (), callee=e.a.get('id'))
+                eff = self.effect(st, 'hcall', name=base, args=vals, where=e.where(), node=e.cid,
+                                  targs=tuple(f.targs) if f else (), callee=e.a.get('id'), ref_lvs={})
                 # non-const reference arguments may be written
                 if f is not None:
-                    for p, a in zip(f.params, e.k):
+                    for k_, (p, a) in enumerate(zip(f.params, e.k)):
                         if is_mut_ref(p.type) and not is_stream_type(p.type):
                             lv = self.eval_lv(st, a)
+                            eff['ref_lvs'][k_] = lv
                             if lv is not None:
                                 self.write(st, lv, ('hout', base, p.name, self.fresh('o')))
                 return r
